@@ -126,7 +126,9 @@ LSame == Language("org.verif.same",
      Asset("Za", NONE, <<>>, << Or("s", NoR) >>) >>,
   << AssocMany("Own", "Pa", "owner", "things", "Xa"),
      AssocMany("Own", "Qa", "owner", "things", "Ya"),
-     \* Pa is called "owner" by Xa (above) and itself owns a field "owner" leading to Za
+     \* Za calls Pa "owner" as well - here Pa is the RIGHT asset of an association whose right field is "owner" ...
+     AssocMany("Sub", "Za", "boss", "owner", "Pa"),
+     \* ... and Pa itself owns a field "owner" leading to Za (Pa is called "owner" by Xa, too: first association)
      AssocMany("Adm", "Pa", "machines", "owner", "Za") >>)
 
 Library == << LSet, LTrans, LVar, LDef, LInh, LDup, LTiny, LOne, LSame >>
